@@ -27,15 +27,25 @@ GROUPS = {
     'l2': Group('l2', filt(2), defines=['VF_MODULAR_DOT'], cxx_defines=['FWD_L1', 'FWD_SPMV'], **SRC),
     'l3': Group('l3', filt(3), defines=['VF_MODULAR_DOT', 'VF_MODULAR_ROW'], cxx_defines=['FWD_L1', 'FWD_SPMV', 'FWD_MM4'], **SRC),
 }
+for lane in range(4):
+    GROUPS['l1_lane%d' % lane] = Group('l1_lane%d' % lane, filt(1), defines=['VF_LANE=%d' % lane], cxx_defines=['FWD_L1'], **SRC)
 A = 'src/' + AVX
 K1 = ['k_mult_avx', 'k_add_avx', 'k_mult_avx_72', 'k_reduce_avx_96_64']
 UNITS = []
-for n in ('spmv_avx_4x12', 'spmv_avx_4x12_a', 'spmv_avx_4x12_8', 'dot_avx', 'dot_avx_a'):
-    UNITS.append(Unit('k_' + n, 'l1', 'k_' + n, replace=K1, functions=['Goldilocks::%s over the L1 contracts (%s)' % (n, A)], timeout=400))
+for n in ('spmv_avx_4x12', 'spmv_avx_4x12_a', 'spmv_avx_4x12_8'):
+    for lane in range(4):
+        UNITS.append(Unit('k_%s@lane%d' % (n, lane), 'l1_lane%d' % lane, 'k_' + n, replace=K1, functions=['Goldilocks::%s [lane %d] over the L1 contracts (%s)' % (n, lane, A)], timeout=400))
 for n, sp in (('mmult_avx_4x12', 'spmv_avx_4x12'), ('mmult_avx_4x12_a', 'spmv_avx_4x12_a'), ('mmult_avx_4x12_8', 'spmv_avx_4x12_8')):
     UNITS.append(Unit('k_' + n, 'l2', 'k_' + n, replace=K1 + ['k_' + sp], functions=['Goldilocks::%s over the contracts of %s and add_avx (%s)' % (n, sp, A)], timeout=600, object_bits=12))
+for n, sp in (('dot_avx', 'spmv_avx_4x12'), ('dot_avx_a', 'spmv_avx_4x12_a')):
+    UNITS.append(Unit('k_' + n, 'l2', 'k_' + n, replace=['k_' + sp], functions=['Goldilocks::%s over the contract of %s (%s)' % (n, sp, A)], timeout=600, object_bits=12))
 for n, mm in (('mmult_avx', 'mmult_avx_4x12'), ('mmult_avx_a', 'mmult_avx_4x12_a'), ('mmult_avx_8', 'mmult_avx_4x12_8')):
     UNITS.append(Unit('k_' + n, 'l3', 'k_' + n, replace=['k_' + mm], functions=['Goldilocks::%s over the contract of %s (%s)' % (n, mm, A)], timeout=600, object_bits=12))
+# the L1 kernels this chain stands on (their contracts are enforced against the real bodies by the C02 units, run here too)
+import re
+from vf.driver import import_units
+_g, _u = import_units('C02', lambda n: re.match(r'k_(mult_avx|add_avx|mult_avx_72|reduce_avx_96_64|mult_avx_128|reduce_avx_128_64|load_avx|load_avx_a|store_avx|store_avx_a)(@.*)?$', n))
+GROUPS.update(_g); UNITS += _u
 NATIVE_FLAGS = ['-mavx2']
 TRUSTED_BASE = [
     'L1 contracts of mult_avx / mult_avx_72 in caller-facing form (canon(c) == MUL(a,b); 72-bit product halves) - enforced in C02 in linear witness form; the bridge is the mathematical step listed under C02',
@@ -49,3 +59,4 @@ MANIFEST_ENTRY = dict(
     technique='layered CBMC code contracts (callers checked against callee contracts via replace-call-with-contract) with uninterpreted field multiplication',
     text='11 units: the 3-block diagonal product, its horizontal sum, the 4x12 block product and the 12x12 matrix-vector product, aligned/unaligned/8-bit variants, each proved against an exact expression DAG for all states and coefficient arrays.',
     note='Trusted: bridge from the L1 witness-form contracts to the uninterpreted-product form, intrinsic table, CBMC/cadical; the DAG = sum-of-products identity is a Lean lemma.')
+NATIVE_SOURCES = ['props/C13/wrappers.cpp']
